@@ -894,4 +894,171 @@ theorem runOps_outbound (p : Policy) (hm : p.mode = .enforce) (ops : List ApiOp)
         · exact absurd rfl hne
     | limit a b => simp only; omega
 
+/-! ### hashed denial: NSEC3 hash accounting -/
+
+theorem debit_n3_cases (p : Policy) (hm : p.mode = .enforce) (sh : Shared) :
+    ((debit p sh .nsec3Hash true).2 = .ok ∧ sh.ctr.get .nsec3Hash < p.caps.get .nsec3Hash ∧
+        (debit p sh .nsec3Hash true).1.ctr.get .nsec3Hash = sh.ctr.get .nsec3Hash + 1) ∨
+    ((debit p sh .nsec3Hash true).2 = .limit .nsec3Hash (p.caps.get .nsec3Hash) ∧
+        p.caps.get .nsec3Hash ≤ sh.ctr.get .nsec3Hash ∧
+        (debit p sh .nsec3Hash true).1.ctr.get .nsec3Hash = sh.ctr.get .nsec3Hash) := by
+  have sp := debit_enforce_spec p hm sh .nsec3Hash true rfl
+  by_cases hlt : sh.ctr.get .nsec3Hash < p.caps.get .nsec3Hash
+  · obtain ⟨h1, h2⟩ := sp.1 hlt
+    left
+    exact ⟨h1, hlt, by rw [h2, KTab.get_set_same]⟩
+  · obtain ⟨h1, h2⟩ := sp.2 (by omega)
+    right
+    exact ⟨h1, by omega, by rw [h2]⟩
+
+/-- one hash request in enforce mode: either free (memo hit), or paid (+1, below the cap), or refused at the cap. -/
+theorem n3Hash_cases (p : Policy) (hm : p.mode = .enforce) (mc : Nat) (sh : Shared) (memo : N3Memo) (key : String) :
+    ((n3Hash p mc sh memo key).2.2 = .ok ∧ (n3Hash p mc sh memo key).1.ctr.get .nsec3Hash = sh.ctr.get .nsec3Hash ∧
+      (∃ m, memo = some m ∧ key ∈ m)) ∨
+    ((n3Hash p mc sh memo key).2.2 = .ok ∧ sh.ctr.get .nsec3Hash < p.caps.get .nsec3Hash ∧
+      (n3Hash p mc sh memo key).1.ctr.get .nsec3Hash = sh.ctr.get .nsec3Hash + 1) ∨
+    ((n3Hash p mc sh memo key).2.2 = .limit .nsec3Hash (p.caps.get .nsec3Hash) ∧ p.caps.get .nsec3Hash ≤ sh.ctr.get .nsec3Hash ∧
+      (n3Hash p mc sh memo key).1.ctr.get .nsec3Hash = sh.ctr.get .nsec3Hash) := by
+  have hd := debit_n3_cases p hm sh
+  generalize hdeb : debit p sh .nsec3Hash true = d at hd
+  obtain ⟨d1, d2⟩ := d
+  simp only at hd
+  cases memo with
+  | none =>
+    rcases hd with ⟨h1, h2, h3⟩ | ⟨h1, h2, h3⟩
+    · right; left
+      subst h1
+      exact ⟨by simp [n3Hash, hdeb], h2, by simp [n3Hash, hdeb, h3]⟩
+    · right; right
+      subst h1
+      exact ⟨by simp [n3Hash, hdeb], h2, by simp [n3Hash, hdeb, h3]⟩
+  | some m =>
+    by_cases hc : key ∈ m
+    · left
+      exact ⟨by simp [n3Hash, hc], by simp [n3Hash, hc], m, rfl, hc⟩
+    · rcases hd with ⟨h1, h2, h3⟩ | ⟨h1, h2, h3⟩
+      · right; left
+        subst h1
+        exact ⟨by simp [n3Hash, hc, hdeb], h2, by simp [n3Hash, hc, hdeb, h3]⟩
+      · right; right
+        subst h1
+        exact ⟨by simp [n3Hash, hc, hdeb], h2, by simp [n3Hash, hc, hdeb, h3]⟩
+
+/-- a proof's hash requests never take the tree's NSEC3 counter past its cap, and never lower it. -/
+theorem n3Run_bounds (p : Policy) (hm : p.mode = .enforce) (mc : Nat) (names : List String) :
+    ∀ (seen : List String) (sh : Shared) (memo : N3Memo),
+      sh.ctr.get .nsec3Hash ≤ (n3Run p mc names seen sh memo).1.ctr.get .nsec3Hash ∧
+      (sh.ctr.get .nsec3Hash ≤ p.caps.get .nsec3Hash →
+        (n3Run p mc names seen sh memo).1.ctr.get .nsec3Hash ≤ p.caps.get .nsec3Hash) := by
+  induction names with
+  | nil => intro seen sh memo; simp [n3Run]
+  | cons n t ih =>
+    intro seen sh memo
+    by_cases hs : n ∈ seen
+    · simp only [n3Run, List.contains_eq_mem, hs, decide_true, if_true]
+      exact ih seen sh memo
+    · have hc := n3Hash_cases p hm mc sh memo n
+      generalize hh : n3Hash p mc sh memo n = r at hc
+      obtain ⟨s1, m1, r1⟩ := r
+      simp only at hc
+      simp only [n3Run, List.contains_eq_mem, hs, decide_false, hh, Bool.false_eq_true, ↓reduceIte]
+      rcases hc with ⟨h1, h2, _⟩ | ⟨h1, h2, h3⟩ | ⟨h1, h2, h3⟩
+      · subst h1
+        have := ih (n :: seen) s1 m1
+        simp only
+        constructor
+        · omega
+        · intro hle; exact this.2 (by omega)
+      · subst h1
+        have := ih (n :: seen) s1 m1
+        simp only
+        constructor
+        · omega
+        · intro hle; exact this.2 (by omega)
+      · subst h1
+        simp only
+        constructor
+        · omega
+        · intro hle; omega
+
+
+/-- without a memo every name the evaluator has not seen is paid for: the exact cost of a proof. -/
+theorem n3Run_none_spec (p : Policy) (hm : p.mode = .enforce) (mc : Nat) (names : List String) :
+    ∀ (seen : List String) (sh : Shared), names.Nodup → (∀ n ∈ names, n ∉ seen) →
+      sh.ctr.get .nsec3Hash ≤ p.caps.get .nsec3Hash →
+      (sh.ctr.get .nsec3Hash + names.length ≤ p.caps.get .nsec3Hash →
+        (n3Run p mc names seen sh none).2.2 = .ok ∧
+        (n3Run p mc names seen sh none).1.ctr.get .nsec3Hash = sh.ctr.get .nsec3Hash + names.length) ∧
+      (p.caps.get .nsec3Hash < sh.ctr.get .nsec3Hash + names.length →
+        (n3Run p mc names seen sh none).2.2 = .limit .nsec3Hash (p.caps.get .nsec3Hash) ∧
+        (n3Run p mc names seen sh none).1.ctr.get .nsec3Hash = p.caps.get .nsec3Hash) := by
+  induction names with
+  | nil => intro seen sh _ _ hle; simp [n3Run]; omega
+  | cons n t ih =>
+    intro seen sh hnd hdis hle
+    have hs : n ∉ seen := hdis n (by simp)
+    have hnd' : t.Nodup := (List.nodup_cons.mp hnd).2
+    have hnt : n ∉ t := (List.nodup_cons.mp hnd).1
+    have hdis' : ∀ x ∈ t, x ∉ n :: seen := by
+      intro x hx hmem
+      rcases List.mem_cons.mp hmem with e | e
+      · exact hnt (e ▸ hx)
+      · exact hdis x (by simp [hx]) e
+    have hc := n3Hash_cases p hm mc sh none n
+    generalize hh : n3Hash p mc sh none n = r at hc
+    obtain ⟨s1, m1, r1⟩ := r
+    have hm1 : m1 = none := by
+      have : (n3Hash p mc sh none n).2.1 = none := by simp [n3Hash]
+      rw [hh] at this; exact this
+    subst hm1
+    simp only at hc
+    simp only [n3Run, List.contains_eq_mem, hs, decide_false, hh, Bool.false_eq_true, ↓reduceIte, List.length_cons]
+    rcases hc with ⟨_, _, m, hmm, _⟩ | ⟨h1, h2, h3⟩ | ⟨h1, h2, h3⟩
+    · cases hmm
+    · subst h1
+      have := ih (n :: seen) s1 hnd' hdis' (by omega)
+      simp only
+      constructor
+      · intro hfit
+        obtain ⟨a, b⟩ := this.1 (by omega)
+        exact ⟨a, by omega⟩
+      · intro hover
+        exact this.2 (by omega)
+    · subst h1
+      simp only
+      constructor
+      · intro hfit; omega
+      · intro _; exact ⟨trivial, by omega⟩
+
+theorem n3Suffixes_head (base : String) (labels : List String) :
+    ∃ rest, n3Suffixes base labels = n3Full base labels :: rest := by
+  cases labels <;> simp [n3Suffixes, n3Full]
+
+theorem n3Plan_head (nodata : Bool) (ring : List String) (full : String) (rest : List String) :
+    ∃ t, (n3Plan nodata ring (full :: rest)).1 = full :: t := by
+  unfold n3Plan
+  by_cases hc : full ∈ ring
+  · simp [hc]
+  · simp only [List.contains_eq_mem, hc, decide_false, n3Climb, Bool.false_eq_true, ↓reduceIte]
+    cases (n3Climb ring rest).2 <;> simp
+
+/-- the first name of a proof, when the memo does not hold it, is paid for before any verdict. -/
+theorem n3Run_head_paid (p : Policy) (hm : p.mode = .enforce) (mc : Nat) (n : String) (t : List String)
+    (sh : Shared) (memo : N3Memo) (hfresh : ∀ m, memo = some m → n ∉ m)
+    (hok : (n3Run p mc (n :: t) [] sh memo).2.2 = .ok) :
+    sh.ctr.get .nsec3Hash < (n3Run p mc (n :: t) [] sh memo).1.ctr.get .nsec3Hash := by
+  have hc := n3Hash_cases p hm mc sh memo n
+  generalize hh : n3Hash p mc sh memo n = r at hc
+  obtain ⟨s1, m1, r1⟩ := r
+  simp only at hc
+  simp only [n3Run, List.contains_nil, hh, Bool.false_eq_true, ↓reduceIte] at hok ⊢
+  rcases hc with ⟨_, _, m, hmm, hin⟩ | ⟨h1, h2, h3⟩ | ⟨h1, h2, h3⟩
+  · exact absurd hin (hfresh m hmm)
+  · subst h1
+    have := (n3Run_bounds p hm mc t [n] s1 m1).1
+    simp only at hok ⊢
+    omega
+  · subst h1
+    simp at hok
+
 end SdnsVerif.Lemmas.Work
